@@ -1,6 +1,517 @@
 package main
 
+// G5 argument modes (C14): for every exported function and every reference-typed parameter
+// (*big.Int, *big.Rat, []int): is the caller's data only READ during the call ("read"), or can the
+// library MUTATE it ("mutated"), or keep a live reference to it after the call returns
+// ("retained")?  A small, conservative, package-local taint analysis over the AST, specialised to
+// the idioms of this code base; anything it does not recognise as a copy or a synchronous read
+// counts against the function.
+
+import (
+	"go/ast"
+	"go/token"
+	"sort"
+	"strings"
+)
+
+type effect struct{ mut, ret, esc bool }
+
+type amAnalysis struct {
+	p     *pkgInfo
+	sum   map[string][]effect // function key -> per-parameter summary
+	notes []string
+}
+
+var bigMutating = map[string]bool{"Add": true, "Sub": true, "Mul": true, "Div": true, "Mod": true, "DivMod": true,
+	"Set": true, "SetInt64": true, "Neg": true, "Abs": true, "Quo": true, "Rem": true, "QuoRem": true, "Exp": true,
+	"Lsh": true, "Rsh": true, "SetString": true, "SetUint64": true, "Sqrt": true, "SetBit": true, "SetFrac": true,
+	"SetFrac64": true, "SetFloat64": true, "Inv": true, "SetInt": true, "SetRat": true}
+
+// external functions that consume their (function/iterator) argument synchronously
+var extConsumes = map[string]bool{"consume2.FromIntGenerator": true, "consume2.FromGenerator": true,
+	"slices.Collect": true, "fmt.Fprint": true, "fmt.Fprintf": true, "fmt.Sprintf": true, "fmt.Fprintln": true,
+	"len": true, "cap": true, "copy": true, "min": true, "max": true, "panic": true, "slices.Clone": true}
+
+// external functions whose result holds on to the argument
+var extHolds = map[string]bool{"itertools.Take": true}
+
+func isRefType(t ast.Expr) bool {
+	switch v := t.(type) {
+	case *ast.StarExpr:
+		if s, ok := v.X.(*ast.SelectorExpr); ok {
+			if x, ok := s.X.(*ast.Ident); ok && x.Name == "big" && (s.Sel.Name == "Int" || s.Sel.Name == "Rat") {
+				return true
+			}
+		}
+	case *ast.ArrayType:
+		if v.Len == nil {
+			if id, ok := v.Elt.(*ast.Ident); ok && id.Name == "int" {
+				return true
+			}
+		}
+	}
+	return false
+}
+
+// holderType: parameter types through which a reference may travel (closures, iterators, interfaces)
+func isHolderType(t ast.Expr) bool {
+	switch v := t.(type) {
+	case *ast.FuncType:
+		return true
+	case *ast.SelectorExpr: // iter.Seq etc.
+		return true
+	case *ast.IndexExpr, *ast.IndexListExpr:
+		return true
+	case *ast.Ident:
+		// any named non-scalar type (interfaces, structs) may carry a reference
+		return !map[string]bool{"int": true, "int64": true, "bool": true, "string": true, "rune": true, "error": true, "byte": true, "int8": true}[v.Name]
+	case *ast.StarExpr, *ast.InterfaceType:
+		return true
+	}
+	return false
+}
+
+func paramNames(fd *ast.FuncDecl) []string {
+	var out []string
+	for _, f := range fd.Type.Params.List {
+		if len(f.Names) == 0 {
+			out = append(out, "_")
+		}
+		for _, n := range f.Names {
+			out = append(out, n.Name)
+		}
+	}
+	return out
+}
+
+func paramTypes(fd *ast.FuncDecl) []ast.Expr {
+	var out []ast.Expr
+	for _, f := range fd.Type.Params.List {
+		k := len(f.Names)
+		if k == 0 {
+			k = 1
+		}
+		for i := 0; i < k; i++ {
+			out = append(out, f.Type)
+		}
+	}
+	return out
+}
+
+func callName(c *ast.CallExpr) string {
+	switch f := c.Fun.(type) {
+	case *ast.Ident:
+		return f.Name
+	case *ast.SelectorExpr:
+		if x, ok := f.X.(*ast.Ident); ok {
+			return x.Name + "." + f.Sel.Name
+		}
+		return "?." + f.Sel.Name
+	case *ast.IndexExpr: // generic instantiation f[T](...)
+		return callName(&ast.CallExpr{Fun: f.X})
+	}
+	return "?"
+}
+
+// isCopyOf: expression that produces a fresh copy of the tainted name
+func isCopyExpr(e ast.Expr, tainted func(ast.Expr) bool) bool {
+	c, ok := e.(*ast.CallExpr)
+	if !ok {
+		return false
+	}
+	name := callName(c)
+	if name == "slices.Clone" {
+		return true
+	}
+	if name == "append" && len(c.Args) >= 2 && c.Ellipsis != token.NoPos {
+		// append([]int(nil), x...)
+		if conv, ok := c.Args[0].(*ast.CallExpr); ok && len(conv.Args) == 1 {
+			if id, ok := conv.Args[0].(*ast.Ident); ok && id.Name == "nil" {
+				return true
+			}
+		}
+	}
+	// new(big.Int).Set(x)
+	if s, ok := c.Fun.(*ast.SelectorExpr); ok && s.Sel.Name == "Set" {
+		if inner, ok := s.X.(*ast.CallExpr); ok && callName(inner) == "new" {
+			return true
+		}
+	}
+	return false
+}
+
+func (a *amAnalysis) analyse(key string, fd *ast.FuncDecl, idx int) effect {
+	var eff effect
+	names := paramNames(fd)
+	if idx >= len(names) {
+		return eff
+	}
+	taint := map[string]bool{names[idx]: true}
+	var tainted func(e ast.Expr) bool
+	tainted = func(e ast.Expr) bool {
+		switch v := e.(type) {
+		case nil:
+			return false
+		case *ast.Ident:
+			return taint[v.Name]
+		case *ast.ParenExpr:
+			return tainted(v.X)
+		case *ast.StarExpr:
+			return tainted(v.X) // struct copy of a big.Int shares its digits
+		case *ast.UnaryExpr:
+			if v.Op == token.AND {
+				return tainted(v.X)
+			}
+			return false
+		case *ast.SliceExpr:
+			return tainted(v.X)
+		case *ast.SelectorExpr:
+			return false
+		case *ast.IndexExpr:
+			return false // element of []int is an int
+		case *ast.CompositeLit:
+			for _, el := range v.Elts {
+				if kv, ok := el.(*ast.KeyValueExpr); ok {
+					if tainted(kv.Value) {
+						return true
+					}
+				} else if tainted(el) {
+					return true
+				}
+			}
+			return false
+		case *ast.FuncLit:
+			cap := false
+			ast.Inspect(v.Body, func(n ast.Node) bool {
+				if id, ok := n.(*ast.Ident); ok && taint[id.Name] {
+					cap = true
+				}
+				return true
+			})
+			return cap
+		case *ast.CallExpr:
+			if isCopyExpr(v, tainted) {
+				return false
+			}
+			name := callName(v)
+			// x.Num(), x.Denom(): pointers into the Rat
+			if s, ok := v.Fun.(*ast.SelectorExpr); ok && (s.Sel.Name == "Num" || s.Sel.Name == "Denom") && tainted(s.X) {
+				return true
+			}
+			// call of a tainted function value: results are plain values in this package
+			if id, ok := v.Fun.(*ast.Ident); ok && taint[id.Name] {
+				return false
+			}
+			// method call on a tainted holder (generator.Generate(), …): the result may hold the
+			// reference too, unless it is a known scalar accessor
+			if s, ok := v.Fun.(*ast.SelectorExpr); ok && tainted(s.X) {
+				if !map[string]bool{"Sign": true, "Cmp": true, "Int64": true, "String": true, "BitLen": true, "IsInt64": true}[s.Sel.Name] && !bigMutating[s.Sel.Name] {
+					return true
+				}
+			}
+			// method call on a tainted holder (e.g. iterator methods): not tracked further
+			if sum, ok := a.sum[name]; ok {
+				for j, arg := range v.Args {
+					if j < len(sum) && tainted(arg) && sum[j].ret {
+						return true
+					}
+				}
+				return false
+			}
+			if extHolds[name] {
+				for _, arg := range v.Args {
+					if tainted(arg) {
+						return true
+					}
+				}
+			}
+			// conversion such as optionFunc(func…) or []int(x)
+			if len(v.Args) == 1 && tainted(v.Args[0]) {
+				if _, isLocal := a.p.funcs[name]; !isLocal && !extConsumes[name] && !strings.Contains(name, ".") {
+					return true
+				}
+			}
+			return false
+		}
+		return false
+	}
+	var visitCall func(c *ast.CallExpr)
+	visitCall = func(c *ast.CallExpr) {
+		name := callName(c)
+		// receiver of a mutating big method
+		if s, ok := c.Fun.(*ast.SelectorExpr); ok {
+			if bigMutating[s.Sel.Name] && tainted(s.X) {
+				eff.mut = true
+				a.notes = append(a.notes, key+": "+names[idx]+"."+s.Sel.Name+" mutates the argument")
+			}
+			if (s.Sel.Name == "DivMod" || s.Sel.Name == "QuoRem") && len(c.Args) == 3 && tainted(c.Args[2]) {
+				eff.mut = true
+			}
+		}
+		if name == "append" && len(c.Args) > 0 && tainted(c.Args[0]) {
+			eff.mut = true // may write into the caller's backing array
+		}
+		if sum, ok := a.sum[name]; ok {
+			for j, arg := range c.Args {
+				if j < len(sum) && tainted(arg) {
+					if sum[j].mut {
+						eff.mut = true
+					}
+					if sum[j].esc {
+						eff.esc = true
+					}
+				}
+			}
+			return
+		}
+		// method of a package type called through a value: look for a unique method of that name
+		if s, ok := c.Fun.(*ast.SelectorExpr); ok {
+			var cands []string
+			for k := range a.sum {
+				if strings.HasSuffix(k, "."+s.Sel.Name) {
+					cands = append(cands, k)
+				}
+			}
+			if len(cands) > 0 {
+				for _, k := range cands {
+					for j, arg := range c.Args {
+						if j < len(a.sum[k]) && tainted(arg) {
+							if a.sum[k][j].mut {
+								eff.mut = true
+							}
+							if a.sum[k][j].esc {
+								eff.esc = true
+							}
+						}
+					}
+				}
+				return
+			}
+		}
+		// big.Int / big.Rat methods and known consumers read their arguments
+		if s, ok := c.Fun.(*ast.SelectorExpr); ok {
+			if bigMutating[s.Sel.Name] || map[string]bool{"Sign": true, "Cmp": true, "Int64": true, "Num": true, "Denom": true,
+				"String": true, "BitLen": true, "IsInt64": true, "WriteByte": true}[s.Sel.Name] {
+				return
+			}
+		}
+		if extConsumes[name] || extHolds[name] || name == "new" || name == "make" || name == "append" {
+			return
+		}
+		for _, arg := range c.Args {
+			if tainted(arg) {
+				eff.esc = true
+				a.notes = append(a.notes, key+": "+names[idx]+" passed to unknown function "+name)
+			}
+		}
+	}
+	var walkStmts func(stmts []ast.Stmt)
+	var walkStmt func(st ast.Stmt)
+	inspectExprs := func(n ast.Node) {
+		ast.Inspect(n, func(m ast.Node) bool {
+			if c, ok := m.(*ast.CallExpr); ok {
+				visitCall(c)
+			}
+			if g, ok := m.(*ast.GoStmt); ok {
+				for _, arg := range g.Call.Args {
+					if tainted(arg) {
+						eff.esc = true
+					}
+				}
+			}
+			return true
+		})
+	}
+	walkStmt = func(st ast.Stmt) {
+		switch s := st.(type) {
+		case *ast.AssignStmt:
+			inspectExprs(s)
+			for i, l := range s.Lhs {
+				var r ast.Expr
+				if len(s.Rhs) == len(s.Lhs) {
+					r = s.Rhs[i]
+				} else if len(s.Rhs) == 1 {
+					r = s.Rhs[0]
+				}
+				switch lv := l.(type) {
+				case *ast.Ident:
+					if r != nil && isCopyExpr(r, tainted) {
+						delete(taint, lv.Name) // rebinding to a fresh copy (x = new(big.Int).Set(x))
+					} else if r != nil && tainted(r) {
+						taint[lv.Name] = true
+					}
+				case *ast.IndexExpr:
+					if tainted(lv.X) {
+						eff.mut = true // x[i] = …
+					}
+				case *ast.SelectorExpr, *ast.StarExpr:
+					if r != nil && tainted(r) {
+						// stored into a field: it escapes unless the struct is a local that is merely returned;
+						// a local composite is handled through CompositeLit, so a field store counts as escape
+						if id, ok := firstIdent(lv); ok && isLocalResult(fd, id) {
+							taint[id] = true
+						} else {
+							eff.esc = true
+						}
+					}
+				}
+			}
+		case *ast.ReturnStmt:
+			inspectExprs(s)
+			for _, r := range s.Results {
+				if tainted(r) {
+					eff.ret = true
+				}
+			}
+		case *ast.BlockStmt:
+			walkStmts(s.List)
+		case *ast.IfStmt:
+			if s.Init != nil {
+				walkStmt(s.Init)
+			}
+			inspectExprs(s.Cond)
+			walkStmts(s.Body.List)
+			if s.Else != nil {
+				walkStmt(s.Else)
+			}
+		case *ast.ForStmt:
+			if s.Init != nil {
+				walkStmt(s.Init)
+			}
+			if s.Cond != nil {
+				inspectExprs(s.Cond)
+			}
+			walkStmts(s.Body.List)
+		case *ast.RangeStmt:
+			inspectExprs(s.X)
+			walkStmts(s.Body.List)
+		default:
+			if st != nil {
+				inspectExprs(st)
+			}
+		}
+	}
+	walkStmts = func(stmts []ast.Stmt) {
+		for _, st := range stmts {
+			walkStmt(st)
+		}
+	}
+	// two passes so that taint introduced late reaches earlier uses (flow-insensitive apart from rebinds)
+	walkStmts(fd.Body.List)
+	// named results that are tainted count as returned
+	if fd.Type.Results != nil {
+		for _, f := range fd.Type.Results.List {
+			for _, n := range f.Names {
+				if taint[n.Name] {
+					eff.ret = true
+				}
+			}
+		}
+	}
+	// closures defined in the body that capture the tainted name and are returned were handled by tainted(FuncLit)
+	return eff
+}
+
+func firstIdent(e ast.Expr) (string, bool) {
+	switch v := e.(type) {
+	case *ast.Ident:
+		return v.Name, true
+	case *ast.SelectorExpr:
+		return firstIdent(v.X)
+	case *ast.StarExpr:
+		return firstIdent(v.X)
+	case *ast.ParenExpr:
+		return firstIdent(v.X)
+	}
+	return "", false
+}
+
+// isLocalResult: name is a local variable of fd (declared by := or var in the body), i.e. a value
+// under construction, as opposed to a receiver, parameter or package variable
+func isLocalResult(fd *ast.FuncDecl, name string) bool {
+	local := false
+	ast.Inspect(fd.Body, func(n ast.Node) bool {
+		switch v := n.(type) {
+		case *ast.AssignStmt:
+			if v.Tok == token.DEFINE {
+				for _, l := range v.Lhs {
+					if id, ok := l.(*ast.Ident); ok && id.Name == name {
+						local = true
+					}
+				}
+			}
+		case *ast.ValueSpec:
+			for _, id := range v.Names {
+				if id.Name == name {
+					local = true
+				}
+			}
+		}
+		return true
+	})
+	return local
+}
+
 func (p *pkgInfo) emitArgModes(o *out) {
+	a := &amAnalysis{p: p, sum: map[string][]effect{}}
+	var keys []string
+	for k, fd := range p.funcs {
+		if fd.Body == nil {
+			continue
+		}
+		keys = append(keys, k)
+		a.sum[k] = make([]effect, len(paramNames(fd)))
+	}
+	sort.Strings(keys)
+	// fixpoint over summaries (parameters of reference or holder type)
+	for iter := 0; iter < 8; iter++ {
+		changed := false
+		for _, k := range keys {
+			fd := p.funcs[k]
+			types := paramTypes(fd)
+			for i, t := range types {
+				if !isRefType(t) && !isHolderType(t) {
+					continue
+				}
+				a.notes = nil
+				e := a.analyse(k, fd, i)
+				if e != a.sum[k][i] {
+					a.sum[k][i] = e
+					changed = true
+				}
+			}
+		}
+		if !changed {
+			break
+		}
+	}
 	o.line("")
-	o.line("-- G5 argument modes: (not yet extracted)")
+	o.line("-- G5 argument modes: (exported function, reference-typed parameter, mode)")
+	var rows []string
+	for _, k := range keys {
+		fd := p.funcs[k]
+		if !ast.IsExported(fd.Name.Name) {
+			continue
+		}
+		if fd.Recv != nil && !ast.IsExported(recvTypeName(fd.Recv.List[0].Type)) {
+			continue
+		}
+		names, types := paramNames(fd), paramTypes(fd)
+		for i, t := range types {
+			if !isRefType(t) {
+				continue
+			}
+			e := a.sum[k][i]
+			mode := "read"
+			if e.mut {
+				mode = "mutated"
+			} else if e.ret || e.esc {
+				mode = "retained"
+			}
+			rows = append(rows, "  ("+leanStr(k)+", "+leanStr(names[i])+", "+leanStr(mode)+")")
+		}
+	}
+	o.line("def argModes : List (String × String × String) := [")
+	o.line("%s", strings.Join(rows, ",\n"))
+	o.line("]")
 }
